@@ -186,6 +186,7 @@ pub enum Res {
     Panic,
     Ok,
     Num(u128),
+    Int(i128),
     None,
     State(Vec<u8>, usize),
     Text(String),
@@ -210,6 +211,7 @@ impl fmt::Display for Res {
             Res::Panic => f.write_str("panic"),
             Res::Ok => f.write_str("ok"),
             Res::Num(n) => write!(f, "num {}", n),
+            Res::Int(n) => write!(f, "num {}", n),
             Res::None => f.write_str("none"),
             Res::State(b, p) => write!(f, "state {} {}", hex(b), p),
             Res::Text(s) => write!(f, "text {}", hex(s.as_bytes())),
